@@ -1038,6 +1038,7 @@ Proof.
       with (let '(l, f', k', b) := ltrace [] br_script f k in if b then l ++ rtrace [] [] f' k' else l).
     destruct (ltrace_before_raise br_script f k) as (f' & k' & E). rewrite E, before_raise_br.
     simpl snd. simpl fst. cbv iota. reflexivity. }
+  clearbody f2.
   destruct (ptrace_outcome [] f2 KError br_id k) as (f' & E2 & _). rewrite E2 in E. rewrite E, app_nil_r.
   rewrite cut_nofault. simpl fst.
   eexists. split; [reflexivity|].
@@ -1060,7 +1061,7 @@ Proof.
   destruct (before_raise s) as [pre raises] eqn:Eb. simpl fst in El; simpl snd in El.
   destruct (wf_script Out pre) eqn:Ew; [|reflexivity].
   rewrite Hproj, E, ctrace_end, El, (strace_expected [] pre Out fwd0 sst0 0 Ew rel0).
-  unfold worker_fb. destruct raises; destruct base; simpl andb; cbv iota.
+  unfold worker_fb. destruct raises; destruct base; cbn [andb negb].
   - simpl rtrace. rewrite app_nil_r. apply (list_eqb_spec _ gev_eqb_spec). reflexivity.
   - destruct (br_trace f' k') as (body & -> & Hb).
     rewrite (is_prefix_app _ gev_eqb_refl), skipn_length_app. simpl.
@@ -1068,3 +1069,63 @@ Proof.
   - rewrite app_nil_r. apply (list_eqb_spec _ gev_eqb_spec). reflexivity.
   - rewrite app_nil_r. apply (list_eqb_spec _ gev_eqb_spec). reflexivity.
 Qed.
+
+(* ====================================================================================== *)
+(* 4. the classic model meets the statement                                                  *)
+(* ====================================================================================== *)
+Lemma bool_eqb_refl b : Bool.eqb b b = true.
+Proof. destruct b; reflexivity. Qed.
+
+Lemma done_sem_free i c : CInv i c -> call_done c = true -> k_sem c = None.
+Proof.
+  intros HI Hd. pose proof HI as [HB H0 Hj Hp Hr]. unfold call_done in Hd. apply andb_true_iff in Hd as [Hmd Hwd].
+  unfold cmain_done in Hmd.
+  destruct (k_sem c) as [[|w]|] eqn:Es; [| |reflexivity]; exfalso.
+  - assert (Hh : holds0 c = true) by (apply H0; reflexivity). unfold holds0 in Hh. destruct (k_main c); discriminate.
+  - pose proof (cb_semw i c HB) as Hw. rewrite Es in Hw.
+    destruct (nth_error (k_workers c) w) as [wk|] eqn:En; [|apply nth_error_None in En; lia].
+    destruct (cb_thr i c HB w wk En) as (H1 & _). rewrite Es in H1. simpl in H1. rewrite Nat.eqb_refl in H1.
+    rewrite forallb_forall in Hwd. specialize (Hwd _ (nth_error_In _ _ En)). unfold cw_done in Hwd.
+    apply andb_true_iff in Hwd as [Hf _]. destruct H1 as [Hwin _]. unfold finished in Hf.
+    destruct (pc (cw_th wk)); simpl in *; discriminate.
+Qed.
+
+Theorem classic_meets_spec : forall i, spec_okb (IClassic i) (model (IClassic i)) = true.
+Proof.
+  intro i. destruct (crun_inv i) as [HI Hd]. unfold spec_okb, model. set (c := crun i) in *.
+  pose proof (done_sem_free i c HI Hd) as Hsem.
+  pose proof HI as [HB H0 Hj Hp Hr]. pose proof HB as [Hle Hsp Hown Hns Hsw Htid Hthr Hmon Hfifo Hqo].
+  pose proof Hd as Hd'. unfold call_done in Hd'. apply andb_true_iff in Hd' as [Hmd Hwd].
+  unfold cmain_done in Hmd. unfold cphase in Hp. destruct (k_main c) eqn:Em; try discriminate.
+  destruct Hp as (HL & Hre & Hlive & Hstops). unfold craise_exp in Hre.
+  set (n := length (ci_suites i)) in *. set (K := started n (ci_mt_raise i)) in *.
+  cbn [o_trace o_raised o_live o_stops o_deadlock o_sem_free].
+  apply andb_true_iff; split; [apply andb_true_iff; split; [apply andb_true_iff; split|]|].
+  - (* what is common to both suites *)
+    unfold common_okb. cbn [o_trace o_raised o_live o_stops o_deadlock]. fold n. fold K.
+    rewrite Hd, Hown, Hsp, HL. cbn [negb andb].
+    rewrite (proj2 (list_eqb_spec _ Nat.eqb_eq _ _) eq_refl). cbn [andb].
+    rewrite Hlive, Nat.eqb_refl. cbn [andb].
+    rewrite <- Hre, bool_eqb_refl.
+    destruct (k_raised c) eqn:Er; cbn [orb andb].
+    + apply (list_eqb_spec _ Nat.eqb_eq). rewrite Hstops. unfold stop_count, cU, unreaped_of. fold n. fold K.
+      destruct (main_stops (k_log c)); reflexivity.
+    + destruct Hstops as [-> ->]. reflexivity.
+  - rewrite Hsem. reflexivity.
+  - apply mon_sectb. fold n. fold K. rewrite Hmon, Hsem. reflexivity.
+  - fold n. fold K. apply forallb_idx_spec. intros w [s fl] Hn. simpl Nat.add.
+    apply nth_error_firstn in Hn as [HwK Hn].
+    destruct (nth_error (k_workers c) w) as [wk|] eqn:En; [|apply nth_error_None in En; lia].
+    destruct (Hthr w wk En) as (H1 & H2 & H3 & s' & fl' & Hs' & Hpath).
+    rewrite Hn in Hs'. injection Hs' as <- <-.
+    rewrite Hsem in H1. simpl in H1. destruct H1 as [_ Hnf].
+    rewrite forallb_forall in Hwd. specialize (Hwd _ (nth_error_In _ _ En)). unfold cw_done in Hwd.
+    apply andb_true_iff in Hwd as [Hf _].
+    destruct fl as [|x fl].
+    + eapply classic_worker_clause; [|reflexivity].
+      unfold worker_fb in *. destruct (ci_base i); apply (worker_log_complete s [] _ _ (cw_th wk)); assumption.
+    + unfold classic_worker_okb. simpl fst; simpl snd. destruct (before_raise s). reflexivity.
+Qed.
+
+Theorem model_meets_spec : forall i, spec_okb i (model i) = true.
+Proof. intros [ci|si]; [apply classic_meets_spec | apply stream_meets_spec]. Qed.
